@@ -12,12 +12,14 @@ def run(ctx):
     if ctx.replay:
         ctx.run_shards(b, "TestVerifC16", 1, 900, "c16replay")
     else:
-        with concurrent.futures.ThreadPoolExecutor(max_workers=2) as ex:
+        with concurrent.futures.ThreadPoolExecutor(max_workers=4) as ex:
             # slow part: silent upstreams (and, thorough, black-holed carriers) - every case waits >= 95 s by
             # construction, so all of them run concurrently in ONE child and share the wait
             fs = ex.submit(ctx.run_shards, b, "TestVerifC16", 1, 1500 if thorough else 600, "c16slow", {"C16_PART": "slow"})
             fm = ex.submit(ctx.run_shards, b, "TestVerifC16", 12, 1500 if thorough else 500, "c16main", {"C16_PART": "main"})
-            for f in (fm, fs):
+            # a DNS endpoint needs a process of its own (one handler table per process in miekg/dns): one child per DNS loss case
+            fd = [ex.submit(ctx.run_shards, b, "TestVerifC16", 1, 600, "c16dns%d" % n, {"C16_PART": "dns:%d" % n}) for n in range(2)]
+            for f in [fm, fs] + fd:
                 f.result()
     return driver.finish(
         ctx, "fault_enumeration",
@@ -36,7 +38,7 @@ def run(ctx):
         "address (listener gone + connections reset + new server), restart with an attempt while down, server gone for good with a second upstream "
         "listed; a BURST of m in {2,8} local connections at once after a FIN/RST cut (idle / mid-transfer; each history x3 quick / x8 thorough, hooks "
         "stagger the interleavings between lock release and stream open): every one served with verified data twice over, exactly ONE new physical "
-        "session (relay count corroborated by the server's accepted-session count) also after one more connection; black-holed carrier on udp and udp with a pre-shared key (thorough: also tcp/ws), judged after the client itself gave up a connection on the dead session. Then the "
+        "session (relay count corroborated by the server's accepted-session count) also after one more connection; black-holed carrier on udp, udp with a pre-shared key and dns (thorough: also tcp/ws), judged after the client itself gave up a connection on the dead session; dns server restarted (it has forgotten the session; 100 s without progress on the next connection = never given up). Then the "
         "NEXT local connection must be served by the right server with verified data. Distinct = the whole case descriptor; non-trivial = the "
         "served/closed/stalled outcome was observed and compared with the model.",
         ["loopback sockets stand for the network; a server restart is emulated by shutting the server command down, resetting its connections at the relay "
